@@ -73,14 +73,16 @@ fn text_match(rtext: &TextRef, qtext: &TextRef) -> (ret: (Vec<WordMatch>, Vec<Wo
     requires text_wf(rtext), text_wf(qtext), text_small(rtext), text_small(qtext),
     ensures tm_post(rtext, qtext, ret), tm_some(rtext, qtext, ret), tm_empty(qtext, ret), tm_first(rtext, qtext, ret), tm_fin(qtext, ret), tm_c14(rtext, qtext, ret),
 { unimplemented!() }
-// C07: the rating slot is the rating cast to isize: the identity below 2^63, and in any case ONE-TO-ONE (distinct ratings give distinct
-// slots, so the order of two hits that differ only in their rating is decided by the comparator, never left to the selection's buffer order)
-pub open spec fn rslot(r: usize) -> isize { r as isize }
-proof fn lemma_rslot(a: usize, b: usize) // [C07]
-    ensures a != b ==> rslot(a) != rslot(b), a <= 0x7fff_ffff_ffff_ffff ==> rslot(a) == a, a > 0x7fff_ffff_ffff_ffff ==> rslot(a) < 0,
+// C07 / C12: the rating slot is the rating moved into isize by an ORDER-PRESERVING, one-to-one map (cast, then flip the sign bit):
+// a higher rating gives a higher slot over the whole usize range, distinct ratings give distinct slots (so the order of two hits
+// that differ only in their rating is decided by the comparator, never left to the selection's buffer order).  At the pinned commit
+// the slot was the plain cast, which wraps above isize::MAX (defect D4, DESIGN.md §7).
+pub open spec fn rslot(r: usize) -> isize { (r as isize) ^ isize::MIN }
+proof fn lemma_rslot(a: usize, b: usize) // [C07 C12]
+    ensures (a < b) == (rslot(a) < rslot(b)), (a == b) == (rslot(a) == rslot(b)),
 {
-    assert(a != b ==> (a as isize) != (b as isize)) by (bit_vector);
-    assert(a > 0x7fff_ffff_ffff_ffffusize ==> (a as isize) < 0isize) by (bit_vector);
+    assert((a < b) == (((a as isize) ^ isize::MIN) < ((b as isize) ^ isize::MIN))) by (bit_vector);
+    assert((a == b) == (((a as isize) ^ isize::MIN) == ((b as isize) ^ isize::MIN))) by (bit_vector);
 }
 // C08: slot k of the score vector holds component k, in the documented priority order
 pub open spec fn slots_ok(h: Hit) -> bool {
@@ -221,11 +223,10 @@ pub fn score_offset_down(hit: &Hit) -> (ret: isize)
 }
 // @item rust/core/src/search/score.rs :: fn score_rating_up
 pub fn score_rating_up(hit: &Hit) -> (ret: isize)
-    // no precondition: `rating as isize` never panics; above 2^63 it wraps (C07: still one-to-one, lemma_rslot)
-    ensures ret == rslot(hit.rating), // [C07]
-        hit.rating <= 0x7fff_ffff_ffff_ffff ==> ret == hit.rating, // [C08 C12]
+    // no precondition; the slot is monotone and one-to-one in the rating (lemma_rslot)
+    ensures ret == rslot(hit.rating), // [C07 C08 C12]
 {
-    hit.rating as isize
+    (hit.rating as isize) ^ isize::MIN
 }
 // @item rust/core/src/search/score.rs :: fn score_word_len_down
 pub fn score_word_len_down(hit: &Hit) -> (ret: isize)
